@@ -30,7 +30,8 @@ type Case struct {
 	// ticket, clear part
 	TktSName string `json:"tkt_sname"`
 	TktRealm string `json:"tkt_realm"`
-	TktKVNO  int    `json:"tkt_kvno"` // -1 = kvno absent
+	TktKVNO  int    `json:"tkt_kvno"`          // -1 = kvno absent
+	KtWide   bool   `json:"kt_wide,omitempty"` // the keytab also holds a newer key of the service under kvno 65539 (same low octet as kvno 3)
 	TktEType int32  `json:"tkt_etype"`
 	TktKey   string `json:"tkt_key"` // name of the key that encrypts the ticket: svc old e2 otherrealm alt host unrelated
 	TktUsage uint32 `json:"tkt_usage"`
@@ -125,14 +126,18 @@ func (c *Case) entries() []ktEnt {
 	mk := func(p, realm string, kvno uint32, et int32, name string, ts uint32) ktEnt {
 		return ktEnt{mint.KeytabEntry{Principal: p, Realm: realm, KVNO: kvno, Key: mint.Key{EType: et, Value: c.K(name, et)}, Timestamp: ts}, name}
 	}
-	return []ktEnt{
+	var wide []ktEnt
+	if c.KtWide {
+		wide = []ktEnt{mk(c.Svc, c.Realm, 65539, c.EType, "wide", 3000)}
+	}
+	return append(wide, []ktEnt{
 		mk(c.Svc, c.Realm, 2, c.EType, "old", 1000),
 		mk(c.Svc, c.Realm, 3, c.EType, "svc", 2000),
 		mk(c.Svc, c.Realm, 3, e2, "e2", 2000),
 		mk(c.Svc, OtherRealm, 3, c.EType, "otherrealm", 2000),
 		mk(AltPrincipal, c.Realm, 3, c.EType, "alt", 2000),
 		mk(c.SecondPrincipal(), c.Realm, 3, c.EType, "host", 2000),
-	}
+	}...)
 }
 
 // KeytabEntries are the keytab records of the service.
@@ -479,14 +484,19 @@ const ctM = 1500 // margin (ms) for the authenticator time
 
 // Defects maps a defect name to its transformer.
 var Defects = map[string]func(c *Case){
-	"tkt-key-unrelated":      func(c *Case) { c.TktKey = "unrelated" },
-	"tkt-key-old":            func(c *Case) { c.TktKey = "old" },
-	"tkt-key-host":           func(c *Case) { c.TktKey = "host" },
-	"kvno-old-new-key":       func(c *Case) { c.TktKVNO = 2 },
-	"kvno-old-consistent":    func(c *Case) { c.TktKVNO = 2; c.TktKey = "old" },
-	"kvno-missing":           func(c *Case) { c.TktKVNO = 9 },
-	"kvno-zero":              func(c *Case) { c.TktKVNO = 0 },
-	"kvno-absent":            func(c *Case) { c.TktKVNO = -1 },
+	"tkt-key-unrelated":   func(c *Case) { c.TktKey = "unrelated" },
+	"tkt-key-old":         func(c *Case) { c.TktKey = "old" },
+	"tkt-key-host":        func(c *Case) { c.TktKey = "host" },
+	"kvno-old-new-key":    func(c *Case) { c.TktKVNO = 2 },
+	"kvno-old-consistent": func(c *Case) { c.TktKVNO = 2; c.TktKey = "old" },
+	"kvno-missing":        func(c *Case) { c.TktKVNO = 9 },
+	"kvno-zero":           func(c *Case) { c.TktKVNO = 0 },
+	"kvno-absent":         func(c *Case) { c.TktKVNO = -1 },
+	// key versions that differ only above the low octet (keytab files carry an 8-bit and a 32-bit kvno)
+	"kvno-plus-256":          func(c *Case) { c.TktKVNO += 256 },
+	"kvno-plus-65536":        func(c *Case) { c.TktKVNO += 65536 },
+	"kvno-wide-consistent":   func(c *Case) { c.KtWide = true; c.TktKVNO = 65539; c.TktKey = "wide" },
+	"kvno-wide-in-keytab":    func(c *Case) { c.KtWide = true },
 	"etype-other-consistent": func(c *Case) { c.TktEType = OtherEType(c.EType); c.TktKey = "e2" },
 	"etype-other-wrong-key":  func(c *Case) { c.TktEType = OtherEType(c.EType) },
 	"etype-not-in-keytab":    func(c *Case) { c.TktEType = AbsentEType(c.EType) },
